@@ -1,0 +1,201 @@
+//go:build verif
+
+// Verification harness (/verif): builds a real resource manager the way
+// NewResourceManager()+start() do, except that no NRI socket is opened and
+// no PID file is written. A recording stub takes the place of the NRI stub.
+// This file is only compiled with the `verif` build tag.
+
+package resmgr
+
+import (
+	"context"
+	"sync"
+	"sync/atomic"
+
+	"github.com/containerd/nri/pkg/api"
+
+	"github.com/containers/nri-plugins/pkg/agent"
+	cfgapi "github.com/containers/nri-plugins/pkg/apis/config/v1alpha1"
+	"github.com/containers/nri-plugins/pkg/resmgr/cache"
+	"github.com/containers/nri-plugins/pkg/resmgr/policy"
+	"github.com/containers/nri-plugins/pkg/sysfs"
+)
+
+// VerifHarness wraps a real resmgr instance.
+type VerifHarness struct {
+	m       *resmgr
+	backend policy.Backend
+	mu      sync.Mutex
+	pushed  [][]*api.ContainerUpdate
+}
+
+// verifStub records updates pushed to the runtime after a reconfiguration.
+type verifStub struct {
+	h *VerifHarness
+}
+
+func (s *verifStub) Run(context.Context) error   { return nil }
+func (s *verifStub) Start(context.Context) error { return nil }
+func (s *verifStub) Stop()                       {}
+func (s *verifStub) Wait()                       {}
+func (s *verifStub) UpdateContainers(u []*api.ContainerUpdate) ([]*api.ContainerUpdate, error) {
+	s.h.mu.Lock()
+	defer s.h.mu.Unlock()
+	s.h.pushed = append(s.h.pushed, u)
+	return nil, nil
+}
+
+// lock tracing: the shadowing Lock/Unlock methods below emit events at the
+// linearization points (after acquiring, before releasing).
+var (
+	verifLockTracer atomic.Value // func(ev string, seq uint64)
+	verifLockSeq    uint64       // written with the resmgr lock held
+)
+
+// VerifSetLockTracer installs a callback invoked with ("lock"|"unlock", seq)
+// while the resource manager lock is held.
+func VerifSetLockTracer(fn func(ev string, seq uint64)) {
+	verifLockTracer.Store(fn)
+}
+
+// Lock shadows the promoted sync.RWMutex method in verif builds.
+func (m *resmgr) Lock() {
+	m.RWMutex.Lock()
+	if fn, ok := verifLockTracer.Load().(func(string, uint64)); ok && fn != nil {
+		verifLockSeq++
+		fn("lock", verifLockSeq)
+	}
+}
+
+// Unlock shadows the promoted sync.RWMutex method in verif builds.
+func (m *resmgr) Unlock() {
+	if fn, ok := verifLockTracer.Load().(func(string, uint64)); ok && fn != nil {
+		verifLockSeq++
+		fn("unlock", verifLockSeq)
+	}
+	m.RWMutex.Unlock()
+}
+
+// NewVerifHarness creates and starts a resource manager with the given backend,
+// agent and initial configuration on the given state directory and sysfs root.
+func NewVerifHarness(backend policy.Backend, agt *agent.Agent, cfg cfgapi.ResmgrConfig, stateDir, sysRoot string) (*VerifHarness, error) {
+	opt.StateDir = stateDir
+	if sysRoot != "" {
+		sysfs.SetSysRoot(sysRoot)
+	}
+
+	m := &resmgr{agent: agt}
+	h := &VerifHarness{m: m, backend: backend}
+
+	if err := m.setupCache(); err != nil {
+		return nil, err
+	}
+	nrip, err := newNRIPlugin(m)
+	if err != nil {
+		return nil, err
+	}
+	nrip.stub = &verifStub{h: h}
+	m.nri = nrip
+
+	if err := m.setupPolicy(backend); err != nil {
+		return nil, err
+	}
+	if err := m.setupEventProcessing(); err != nil {
+		return nil, err
+	}
+	if err := m.setupControllers(); err != nil {
+		return nil, err
+	}
+
+	// start(), minus logger/instrumentation reconfiguration, nri.start() and the PID file
+	m.cfg = cfg
+	mCfg := cfg.CommonConfig()
+	m.cache.ConfigureRDTControl(mCfg.Control.RDT.Enable)
+	m.cache.ConfigureBlockIOControl(mCfg.Control.BlockIO.Enable)
+	if err := m.policy.Start(m.cfg.PolicyConfig()); err != nil {
+		return nil, err
+	}
+	if err := m.startControllers(); err != nil {
+		return nil, err
+	}
+	if err := m.startEventProcessing(); err != nil {
+		return nil, err
+	}
+	m.running = true
+
+	return h, nil
+}
+
+// Close stops the event processing goroutine.
+func (h *VerifHarness) Close() {
+	if h.m.stop != nil {
+		close(h.m.stop)
+		h.m.stop = nil
+	}
+}
+
+// Cache returns the real cache.
+func (h *VerifHarness) Cache() cache.Cache { return h.m.cache }
+
+// Policy returns the generic policy layer.
+func (h *VerifHarness) Policy() policy.Policy { return h.m.policy }
+
+// Backend returns the policy backend.
+func (h *VerifHarness) Backend() policy.Backend { return h.backend }
+
+// TakePushed returns and clears the update batches pushed through the stub.
+func (h *VerifHarness) TakePushed() [][]*api.ContainerUpdate {
+	h.mu.Lock()
+	defer h.mu.Unlock()
+	p := h.pushed
+	h.pushed = nil
+	return p
+}
+
+// UpdateConfig delivers a configuration the way the agent's notify callback does.
+func (h *VerifHarness) UpdateConfig(cfg interface{}) (bool, error) {
+	return h.m.updateConfig(cfg)
+}
+
+// Reconfigure calls the real reconfigure().
+func (h *VerifHarness) Reconfigure(cfg cfgapi.ResmgrConfig) error {
+	return h.m.reconfigure(cfg)
+}
+
+// The NRI handlers, unchanged.
+
+func (h *VerifHarness) Synchronize(ctx context.Context, pods []*api.PodSandbox, ctrs []*api.Container) ([]*api.ContainerUpdate, error) {
+	return h.m.nri.Synchronize(ctx, pods, ctrs)
+}
+
+func (h *VerifHarness) RunPodSandbox(ctx context.Context, pod *api.PodSandbox) error {
+	return h.m.nri.RunPodSandbox(ctx, pod)
+}
+
+func (h *VerifHarness) StopPodSandbox(ctx context.Context, pod *api.PodSandbox) error {
+	return h.m.nri.StopPodSandbox(ctx, pod)
+}
+
+func (h *VerifHarness) RemovePodSandbox(ctx context.Context, pod *api.PodSandbox) error {
+	return h.m.nri.RemovePodSandbox(ctx, pod)
+}
+
+func (h *VerifHarness) CreateContainer(ctx context.Context, pod *api.PodSandbox, c *api.Container) (*api.ContainerAdjustment, []*api.ContainerUpdate, error) {
+	return h.m.nri.CreateContainer(ctx, pod, c)
+}
+
+func (h *VerifHarness) StartContainer(ctx context.Context, pod *api.PodSandbox, c *api.Container) error {
+	return h.m.nri.StartContainer(ctx, pod, c)
+}
+
+func (h *VerifHarness) UpdateContainer(ctx context.Context, pod *api.PodSandbox, c *api.Container, r *api.LinuxResources) ([]*api.ContainerUpdate, error) {
+	return h.m.nri.UpdateContainer(ctx, pod, c, r)
+}
+
+func (h *VerifHarness) StopContainer(ctx context.Context, pod *api.PodSandbox, c *api.Container) ([]*api.ContainerUpdate, error) {
+	return h.m.nri.StopContainer(ctx, pod, c)
+}
+
+func (h *VerifHarness) RemoveContainer(ctx context.Context, pod *api.PodSandbox, c *api.Container) error {
+	return h.m.nri.RemoveContainer(ctx, pod, c)
+}
